@@ -106,10 +106,19 @@ fn run_format(cfg: &Cfg, index: u64, stats: &mut Stats) {
         fail(stats, "formatted-output-does-not-parse".into(), why, Some(&output));
         return;
     }
+    // (2b) the text a `@(literal)` splice denotes is not visible in the desugared term (it prints as `literal_`): the
+    // `--|` lines themselves must come out character for character
+    let (before, after) = (crate::props::c13::text_lines(&input), crate::props::c13::text_lines(&output));
+    if before != after {
+        let at = before.iter().zip(after.iter()).position(|(a, b)| a != b).unwrap_or(before.len().min(after.len()));
+        fail(stats, "text-block-content-changed".into(), format!("{} text lines in, {} out; first difference at #{}: {:?} vs {:?}", before.len(), after.len(), at, before.get(at), after.get(at)), Some(&output));
+        return;
+    }
     // (3) structural identity after desugaring
     match (e2::desugared(&input), e2::desugared(&output)) {
         | (Ok(Ok(a)), Ok(Ok(b))) => {
             stats.count("desugared_compared");
+            stats.count(&format!("desugared_compared_{}", case.origin.split(':').next().unwrap_or("")));
             if a != b {
                 let at = a.bytes().zip(b.bytes()).position(|(x, y)| x != y).unwrap_or(a.len().min(b.len()));
                 let from = at.saturating_sub(60);
@@ -120,6 +129,7 @@ fn run_format(cfg: &Cfg, index: u64, stats: &mut Stats) {
         }
         | (Ok(Err(a)), Ok(Err(b))) => {
             stats.count("both_fail_to_desugar");
+            stats.count(&format!("both_fail_to_desugar_{}", case.origin.split(':').next().unwrap_or("")));
             let _ = (a, b);
         }
         | (Ok(Ok(_)), Ok(Err(e))) | (Ok(Err(e)), Ok(Ok(_))) => {
